@@ -861,6 +861,52 @@ class _ShimABCMeta(abc.ABCMeta):
     return issubclass(sub, cls.__real__)
 
 
+_TOKEN_RE = None
+
+
+def has_tokens(x):
+  return _real_isinstance(x, str) and "\u27e6sym" in x
+
+
+def _token_digits(part):
+  """a maximal digit field of a written number: literal digits or ONE format token -> (value as z3 Int term, number of digits)
+  The token's printed width is its format's minimum width; that the value fits is assumed here and recorded as a path condition
+  (`value < 10**width`), so a wider value is a different, unexplored path (Unsupported on that branch)."""
+  import re as _re
+  if _re.fullmatch("[0-9]+", part):
+    return z3.IntVal(_real_int(part)), len(part)
+  m = _re.fullmatch("\u27e6sym([0-9]+)\u27e7", part)
+  if not m:
+    raise Unsupported(f"number with mixed digits and tokens: {part!r}")
+  val, spec = cur().tokens[_real_int(m.group(1))]
+  sm = _re.fullmatch("0?([0-9]*)d?", spec or "")
+  if sm is None or not _real_isinstance(val, SymInt):
+    raise Unsupported(f"token with format {spec!r} inside a number")
+  if not (val >= 0):
+    raise Unsupported("negative formatted value inside a number")
+  if not sm.group(1):
+    return val.term, None      # no minimum width: as many digits as the value has (fine for an integer part)
+  width = _real_int(sm.group(1))
+  if not (val < 10 ** width):          # forks: the value is wider than its field
+    raise Unsupported(f"formatted value wider than its field ({spec!r})")
+  return val.term, width
+
+
+def number_from_text(text):
+  """int / Fraction of a written decimal `INT[.FRAC]` whose digit fields may be format tokens -> SymInt | SymFrac"""
+  import re as _re
+  m = _re.fullmatch("((?:[0-9]|\u27e6sym[0-9]+\u27e7)+)(?:\\.((?:[0-9]|\u27e6sym[0-9]+\u27e7)+))?", text.strip())
+  if not m:
+    raise Unsupported(f"not a decimal with tokens: {text!r}")
+  iv, _w = _token_digits(m.group(1))
+  if m.group(2) is None:
+    return SymInt(iv)
+  fv, fw = _token_digits(m.group(2))
+  if fw is None:
+    raise Unsupported("fraction digits written without a fixed width")
+  return SymFrac(z3.ToReal(iv) + z3.ToReal(fv) / (10 ** fw))
+
+
 class vc_int(int, metaclass=_ShimMeta):
   """`int` inside rewritten modules: int(x) on a symbolic number yields a symbolic int (truncation toward zero)."""
   __real__ = int
@@ -876,6 +922,11 @@ class vc_int(int, metaclass=_ShimMeta):
       if hasattr(x, "vc_int"):
         return x.vc_int()
       raise Unsupported(f"int({type(x).__name__})")
+    if has_tokens(x) and not a:
+      n = number_from_text(x)
+      if not _real_isinstance(n, SymInt):
+        raise ValueError(f"invalid literal for int() with base 10: {x!r}")
+      return n
     return _real_int(x, *a)
 
 
@@ -909,6 +960,9 @@ class vc_Fraction(metaclass=_ShimMeta):
       _nonzero(td, "Fraction(%s, 0)")
       return SymFrac(z3.simplify(_lift(tn, kn, K_FRAC) / _lift(td, kd, K_FRAC)))
     if denominator is None:
+      if has_tokens(numerator):
+        n = number_from_text(numerator)
+        return n if _real_isinstance(n, SymFrac) else SymFrac(z3.ToReal(n.term))
       return fractions.Fraction(numerator)
     return fractions.Fraction(numerator, denominator)
 
